@@ -36,18 +36,24 @@ def _run_one(job):
     t0 = time.time()
     try:
         shutil.copytree(os.path.join(repo, 'diskcache'), os.path.join(d, 'diskcache'))
-        p = os.path.join(d, 'diskcache', fn)
-        with open(p) as f:
-            s = f.read()
-        if old not in s:
-            return {'id': mid, 'kind': kind, 'status': 'not-applicable', 'why': 'pattern not in current source'}
-        s = s.replace(old, new) if replace_all else s.replace(old, new, 1)
-        try:
-            compile(s, p, 'exec')
-        except SyntaxError as e:
-            return {'id': mid, 'kind': kind, 'status': 'broken-mutant', 'why': str(e)}
-        with open(p, 'w') as f:
-            f.write(s)
+        if fn == 'PATCH':
+            import subprocess
+            r = subprocess.run(['patch', '-p1', '-s', '-d', d, '-i', old], capture_output=True, text=True)
+            if r.returncode != 0:
+                return {'id': mid, 'kind': kind, 'status': 'not-applicable', 'why': 'patch does not apply to the current source'}
+        else:
+            p = os.path.join(d, 'diskcache', fn)
+            with open(p) as f:
+                s = f.read()
+            if old not in s:
+                return {'id': mid, 'kind': kind, 'status': 'not-applicable', 'why': 'pattern not in current source'}
+            s = s.replace(old, new) if replace_all else s.replace(old, new, 1)
+            try:
+                compile(s, p, 'exec')
+            except SyntaxError as e:
+                return {'id': mid, 'kind': kind, 'status': 'broken-mutant', 'why': str(e)}
+            with open(p, 'w') as f:
+                f.write(s)
         try:
             ctx = Ctx(repo=d)
             fails = _failing(ctx, rules)
@@ -78,6 +84,10 @@ def run(rule_filter=None, jobs=None, repo=None, quiet_rules=None):
     for m in FIRE:
         if rule_filter is None or set(m[4]) & set(rule_filter):
             needed |= set(m[4])
+    import glob as _glob
+    for mp in _glob.glob(os.path.join(HERE, 'seeded', '*', 'meta.json')):
+        with open(mp) as f:
+            needed |= {r for r in (json.load(f).get('detected_by') or []) if r in RULES}
     baseline = sorted(_failing(ctx, sorted(needed)))
     work = []
     for m in FIRE:
@@ -85,6 +95,19 @@ def run(rule_filter=None, jobs=None, repo=None, quiet_rules=None):
         if rule_filter is not None and not (set(rules) & set(rule_filter)):
             continue
         work.append(('fire', mid, fn, old, new, list(rules), baseline, repo, False))
+    # seeded changes written by independent sub-agents (seeded/<id>/patch.diff)
+    import glob
+    for mp in sorted(glob.glob(os.path.join(HERE, 'seeded', '*', 'meta.json'))):
+        with open(mp) as f:
+            meta = json.load(f)
+        rules = meta.get('detected_by') or []
+        if not rules:
+            continue
+        if rule_filter is not None and not (set(rules) & set(rule_filter)):
+            continue
+        needed_now = [r for r in rules if r in RULES]
+        work.append(('fire', 'seed:' + meta['id'], 'PATCH', os.path.join(os.path.dirname(mp), 'patch.diff'), '',
+                     needed_now, baseline, repo, False))
     for m in QUIET:
         mid, fn, old, new = m[:4]
         work.append(('quiet', mid, fn, old, new, qrules, baseline, repo, 'helper' in mid or (len(m) > 4 and m[4] == 'all')))
